@@ -484,6 +484,25 @@ func origins(v ssa.Value) tagSet {
 					if st, ok := r.(*ssa.Store); ok && st.Addr == x {
 						walk(st.Val, depth+1)
 					}
+					// elements of a local array / fields of a local struct (variadic argument lists, literals)
+					var sub ssa.Value
+					switch y := r.(type) {
+					case *ssa.IndexAddr:
+						if y.X == ssa.Value(x) {
+							sub = y
+						}
+					case *ssa.FieldAddr:
+						if y.X == ssa.Value(x) {
+							sub = y
+						}
+					}
+					if sub != nil && sub.Referrers() != nil {
+						for _, r2 := range *sub.Referrers() {
+							if st, ok := r2.(*ssa.Store); ok && st.Addr == sub {
+								walk(st.Val, depth+1)
+							}
+						}
+					}
 				}
 			}
 		case *ssa.MakeSlice, *ssa.MakeMap, *ssa.MakeChan:
@@ -538,6 +557,29 @@ func mapFieldOf(m ssa.Value) string {
 // as paths, protobuf-style getters as the field they return, conversions transparent.
 func exprName(v ssa.Value) string { return exprNameD(v, 0) }
 
+// canonName is exprName with parameters replaced by their position ($0 is the receiver), so that a
+// renamed parameter does not change the name.
+func canonName(v ssa.Value) string {
+	aliasParams = true
+	defer func() { aliasParams = false }()
+	return exprNameD(v, 0)
+}
+
+// canonLinear is linearOf with canonical parameter names.
+func canonLinear(v ssa.Value) Linear {
+	aliasParams = true
+	defer func() { aliasParams = false }()
+	return linearOfD(v, 0)
+}
+
+func canonLinCmp(l Lit) (linCmp, bool) {
+	aliasParams = true
+	defer func() { aliasParams = false }()
+	return linCmpOf(l)
+}
+
+var aliasParams bool
+
 func exprNameD(v ssa.Value, d int) string {
 	if v == nil {
 		return "<nil>"
@@ -547,8 +589,32 @@ func exprNameD(v ssa.Value, d int) string {
 	}
 	switch x := v.(type) {
 	case *ssa.Parameter:
+		if aliasParams && x.Parent() != nil {
+			for i, p := range x.Parent().Params {
+				if p == x {
+					return fmt.Sprintf("$%d", i)
+				}
+			}
+		}
 		return x.Name()
 	case *ssa.FreeVar:
+		if aliasParams {
+			// a captured receiver/parameter of the enclosing function keeps that function's alias
+			if fn := x.Parent(); fn != nil && fn.Parent() != nil {
+				for i, fv := range fn.FreeVars {
+					if fv != x {
+						continue
+					}
+					for _, b := range fn.Parent().Blocks {
+						for _, in := range b.Instrs {
+							if mc, ok := in.(*ssa.MakeClosure); ok && mc.Fn == fn && i < len(mc.Bindings) {
+								return exprNameD(mc.Bindings[i], d+1)
+							}
+						}
+					}
+				}
+			}
+		}
 		return x.Name()
 	case *ssa.Global:
 		return x.Name()
@@ -613,6 +679,10 @@ func exprNameD(v ssa.Value, d int) string {
 	case *ssa.BinOp:
 		return "(" + exprNameD(x.X, d+1) + x.Op.String() + exprNameD(x.Y, d+1) + ")"
 	case *ssa.Phi:
+		if phiCyclic(x) {
+			// a loop-carried variable: named after the source variable
+			return "φ" + x.Comment
+		}
 		var es []string
 		seen := map[string]bool{}
 		for _, e := range x.Edges {
@@ -920,4 +990,33 @@ func instrDominates(a, b ssa.Instruction) bool {
 		return instrIndex(a) < instrIndex(b)
 	}
 	return a.Block().Dominates(b.Block())
+}
+
+// phiCyclic: the phi depends on itself (a loop-carried variable).
+func phiCyclic(p *ssa.Phi) bool {
+	seen := map[ssa.Value]bool{}
+	var walk func(v ssa.Value, d int) bool
+	walk = func(v ssa.Value, d int) bool {
+		if d > 12 || v == nil {
+			return false
+		}
+		if v == ssa.Value(p) && d > 0 {
+			return true
+		}
+		if seen[v] {
+			return false
+		}
+		seen[v] = true
+		in, ok := v.(ssa.Instruction)
+		if !ok {
+			return false
+		}
+		for _, op := range in.Operands(nil) {
+			if *op != nil && walk(*op, d+1) {
+				return true
+			}
+		}
+		return false
+	}
+	return walk(p, 0)
 }
